@@ -139,7 +139,29 @@ def run(chk):
         f = g.derive()
         k = chk.rng.choice([0, 1, -1, 2])
         cases.append((("pipe", f, ("pipe", ("del", ("index", ("self",), lit(k))), ("collect", ("pipe", ("index", ("self",), None), ("key",))))), d))
+    # to_entries on a rebuilt sequence reports positions (it numbers the elements itself, whatever keys they carry)
+    te_off = len(cases)
+    for _ in range(n // 3):
+        d = evalgen.gen_doc(chk.rng)
+        g.set_doc(d)
+        f = g.derive()
+        cases.append((("pipe", f, ("pipe", ("to_entries",), ("collect", ("pipe", ("index", ("self",), None), ("getkey", "key"))))), d))
     impl, mm, unsup, err = evalcheck.correspondence(chk, cases, "c16_cases")
+    for i in range(te_off, len(cases)):
+        res = evalcheck.results_of(impl[i])
+        if res is None or len(res) != 1 or i in evalcheck.LAST_UNSUP:
+            continue
+        try:
+            keys = c02_unser(res[0])
+        except Exception:
+            continue
+        base = cases[i][0][1]
+        # only sequences number their entries; entries of a map carry its keys
+        chk.count(("to_entries", evalgen.render(cases[i][0]), json.dumps(cases[i][1])), nontrivial=isinstance(keys, list) and len(keys) > 1)
+        if isinstance(keys, list) and keys and all(isinstance(k_, int) for k_ in keys) and keys != list(range(len(keys))) and len(chk.violations) < 5:
+            chk.violation({"kind": "eval", "expr": evalgen.render(cases[i][0]), "doc": cases[i][1], "impl": impl[i].decode("utf-8", "replace"),
+                           "expect": (b"OK\n" + evalcheck.ser(list(range(len(keys)))) + b"\n").decode()}, True,
+                          "to_entries on a rebuilt sequence does not number the elements by position")
     for i in range(dd_off, len(cases)):
         res = evalcheck.results_of(impl[i])
         if res is None or len(res) != 1 or i in evalcheck.LAST_UNSUP:
